@@ -58,7 +58,7 @@ pub fn check_file(bytes: &[u8], st: &mut Stats, what: &dyn Fn() -> String) -> R 
         .with_decoded(dec()));
     }
     // expected stdout computed in-process
-    let lib = no_panic("load_bytes + disassemble", || match rspirv::dr::load_bytes(bytes) {
+    let lib = no_panic("load_bytes + disassemble", || match rspirv::dr::load_bytes(crate::rs::Shifted::new(bytes).bytes()) {
         Ok(m) => (true, format!("{}\n", m.disassemble())),
         Err(e) => (false, format!("{}\n", e)),
     })
@@ -223,11 +223,20 @@ fn ext_numbers() -> Vec<u32> {
 fn sub_ext_numbers(input: &[u8], st: &mut Stats) -> R {
     let k = idx(input) as usize;
     let nums = ext_numbers();
-    if k >= nums.len() * 3 {
+    let sets = crate::vocab::EXT_SETS;
+    if k >= nums.len() * sets.len() {
         return Ok(());
     }
-    let n = nums[k / 3];
-    let set = ["GLSL.std.450", "OpenCL.std", "NonSemantic.Unknown"][k % 3];
+    let n = nums[k / sets.len()];
+    let set = sets[k % sets.len()];
+    let w = ext_number_module(set, n);
+    check_file(&words_to_bytes(&w), st, &|| format!("OpExtInst number {} on an import of {:?}", n, set))?;
+    st.count(&format!("ext_set_{}", set));
+    Ok(())
+}
+
+/// a small loadable module: an import of `set` and, inside a block, OpExtInst number `n` on it
+pub fn ext_number_module(set: &str, n: u32) -> Vec<u32> {
     let mut w = header_words((1, 3), 20);
     let mut imp = vec![11u32, 1];
     imp.extend(str_words(set));
@@ -238,9 +247,13 @@ fn sub_ext_numbers(input: &[u8], st: &mut Stats) -> R {
     w.extend([0x0005_0036, 2, 4, 0, 3, 0x0002_00f8, 5]);
     w.extend([0x0007_000c, 2, 6, 1, n, 7, 8]); // %6 = OpExtInst %2 %1 n %7 %8
     w.extend([0x0001_00fd, 0x0001_0038]);
-    check_file(&words_to_bytes(&w), st, &|| format!("OpExtInst number {} on an import of {:?}", n, set))?;
-    st.count(&format!("ext_set_{}", k % 3));
-    Ok(())
+    w
+}
+pub fn ext_numbers_len() -> usize {
+    ext_numbers().len()
+}
+pub fn ext_number_at(i: usize) -> u32 {
+    ext_numbers()[i]
 }
 
 fn sub_fixed(input: &[u8], st: &mut Stats) -> R {
@@ -500,7 +513,7 @@ pub fn run(ctx: &Ctx) {
     drive_random_with(ctx, &SUBS[2], ctx.n(1_500, 300_000), 1400, 250);
     drive_enum(ctx, &SUBS[3], (SHAPE_BASES.len() * SHAPE_OFFS * SHAPE_KINDS) as u64);
     drive_random_with(ctx, &SUBS[4], ctx.n(800, 200_000), 200, 250);
-    drive_enum(ctx, &SUBS[5], (ext_numbers().len() * 3) as u64);
+    drive_enum(ctx, &SUBS[5], (ext_numbers().len() * crate::vocab::EXT_SETS.len()) as u64);
     drive_random_with(ctx, &SUBS[6], ctx.n(1_500, 300_000), 1400, 250);
     drive_random_with(ctx, &SUBS[7], ctx.n(800, 200_000), 800, 250);
     cleanup();
